@@ -508,7 +508,13 @@ def poolLine (rest : String) : String :=
     | _, _ => "bad-op"
   | _ => "bad-op"
 
-/-! ### connin: `connin <limit> | <hex chunk> ; <hex chunk> ; ...` -/
+/-! ### connin: `connin <limit> | <hex chunk> ; b:<hex chunk> ; xa ; xb ; ...` (two clients `a` (default) and `b`
+    sharing the ring pool; `x?` = the client closes) -/
+structure ConninCl where
+  c : ConnIn.InConn := {}
+  n : Nat := 0
+  closed : Bool := false
+
 def conninLine (rest : String) : String :=
   match rest.splitOn "|" with
   | [hd, chunks] =>
@@ -516,18 +522,32 @@ def conninLine (rest : String) : String :=
     | none => "bad-op"
     | some limit =>
       let toks := ((chunks.splitOn ";").map (fun t => t.trimAscii.toString)).filter (· ≠ "")
-      let step := fun (acc : Elastic.Pool × ConnIn.InConn × Nat × Bool × List String × Bool) (tok : String) =>
-        let (pool, c, n, closed, outs, bad) := acc
-        match fromHex tok with
-        | none => (pool, c, n, closed, outs, true)
-        | some chunk =>
-          if closed then (pool, c, n, closed, outs ++ [s!"n={n} left=0 open=0"], bad)
+      let step := fun (acc : Elastic.Pool × ConninCl × ConninCl × List String × Bool) (tok : String) =>
+        let (pool, a, b, outs, bad) := acc
+        let isB := tok.startsWith "b:" || tok == "xb"
+        let cl := if isB then b else a
+        let put := fun (pool' : Elastic.Pool) (cl' : ConninCl) (out : String) =>
+          if isB then (pool', a, cl', outs ++ [out], bad) else (pool', cl', b, outs ++ [out], bad)
+        if tok == "xa" || tok == "xb" then
+          if cl.closed then put pool cl s!"n={cl.n} left=0 open=0"
           else
-            let r := ConnIn.feed goTables goSlot limit pool c chunk
-            let n' := n + r.1.length
-            if r.2.2.2 then (r.2.1, r.2.2.1, n', true, outs ++ [s!"n={n'} left=0 open=0"], bad)
-            else (r.2.1, r.2.2.1, n', false, outs ++ [s!"n={n'} left={r.2.2.1.inb.buffered} open=1"], bad)
-      let (_, _, _, _, outs, bad) := toks.foldl step (({} : Elastic.Pool), ({} : ConnIn.InConn), 0, false, [], false)
+            let r := cl.c.close pool
+            put r.1 { cl with c := r.2, closed := true } s!"n={cl.n} left=0 open=0"
+        else
+          let hex := if tok.startsWith "b:" then (tok.drop 2).toString else tok
+          match fromHex hex with
+          | none => (pool, a, b, outs, true)
+          | some chunk =>
+            if cl.closed then put pool cl s!"n={cl.n} left=0 open=0"
+            else
+              let r := ConnIn.feed goTables goSlot limit pool cl.c chunk
+              let n' := cl.n + r.1.length
+              if r.2.2.2 then
+                -- invalid input: the proxy closes the connection, its ring goes back to the pool
+                let k := r.2.2.1.close r.2.1
+                put k.1 { c := k.2, n := n', closed := true } s!"n={n'} left=0 open=0"
+              else put r.2.1 { c := r.2.2.1, n := n', closed := false } s!"n={n'} left={r.2.2.1.inb.buffered} open=1"
+      let (_, _, _, outs, bad) := toks.foldl step (({} : Elastic.Pool), ({} : ConninCl), ({} : ConninCl), [], false)
       if bad then "bad-op" else String.intercalate " ; " outs
   | _ => "bad-op"
 
